@@ -90,7 +90,9 @@ def run_case(ck: Check, case: dict):
     starts_packed = [gd.pack(s) for s in starts] if starts is not None else [gd.pack(gd.central)]
     layers = bfsrun.spec_layers(drv, starts_packed)
     exp = expected_prefix(layers, opts, stop)
-    impl = bfsrun.run_impl(gd, cfg, opts, starts=starts, stop=stop, limit_s=30)
+    impl = bfsrun.run_impl(gd, cfg, opts, starts=starts, stop=stop, limit_s=30, flavour=case.get("stop_flavour", "bool"))
+    if stop:
+        ck.count("callback reports as:" + case.get("stop_flavour", "bool"))
     mod = bfsrun.run_model(drv, gd, cfg, opts, starts_packed, stop=stop)
     rule = (
         "completed"
@@ -186,7 +188,7 @@ def gen_case(ck: Check, cap: int):
             starts = [list(s) for s in rng.sample(orbit, min(len(orbit), rng.randint(2, 6)))]
             if rng.random() < 0.4:
                 starts.append(list(starts[0]))
-        return {"gd": gd.to_json(), "cfg": cfg, "opts": opts, "starts": starts, "stop": list(stop) if stop else None}
+        return {"gd": gd.to_json(), "cfg": cfg, "opts": opts, "starts": starts, "stop": list(stop) if stop else None, "stop_flavour": rng.choice(["bool", "bool", "torch", "numpy", "count"])}
     raise RuntimeError("no case")
 
 
